@@ -13,7 +13,7 @@
    positions that hold it).  The translated _update maps legacy_of st to legacy_of (st ++ [trip]) for EVERY st, so the
    objects reachable from the empty one by any number of calls are exactly the legacy_of st. *)
 From Coq Require Import ZArith List Bool Lia Arith QArith Qcanon Sorted.
-From Batchie Require Import Lib.Sexp Lib.Num Lib.PyRt Generated.Consts Model.Encode Model.Train Generated.SrcTrain
+From Batchie Require Import Lib.Sexp Lib.Num Lib.PyRt Generated.Consts Generated.ConstsClip Model.Encode Model.Train Generated.SrcTrain
   Proofs.PyRtLemmas Proofs.C01Sort.
 Import ListNotations.
 Open Scope Z_scope.
